@@ -36,6 +36,7 @@ ENC = "sharepoint2text/parsing/extractors/util/encryption.py"
 
 # ASSUMED total on an open container (CPython: a list built from the already parsed central directory, nothing is read)
 TOTAL = ("namelist",)
+MISSING_MEMBER = ("read", "open", "getinfo", "extract")
 ACCESS = ("namelist", "read", "open", "extract", "extractall", "testzip", "getinfo", "infolist_names")
 
 
@@ -98,6 +99,9 @@ def member_access(name):
         k = ex.call_ordinal(node, f"ZipFile.{name}")
         ex.add_vc("call-pre", f"member-access-on-accepted-open-container:{name}@{k}", st.pc, accepted_open(ex, st, obj.t), loc=ex.loc(node))
         st.ghost["c11!accesses"] = st.ghost.get("c11!accesses", ()) + ((obj.t, name),)
+        if name in MISSING_MEMBER:
+            # documented behaviour, not an over-approximation: no member of that name -> KeyError (a REAL path: refutations on it count)
+            ex.raise_in(st.fork(), ex.mk_exc("KeyError"))
         if name not in TOTAL:
             ex.exc_any(st.fork(), f"{ex.loc(node)} ZipFile.{name}")
             return [(st, VUnk(f"ZipFile.{name}"))]
@@ -105,23 +109,33 @@ def member_access(name):
     return model
 
 
+def m_is_zipfile(ex, st, args, kwargs, node):
+    """zipfile.is_zipfile(stream): ASSUMED total (CPython catches OSError and answers False), some Boolean, moves the stream."""
+    from contracts import common
+    from pyvc.values import VBool
+    if args and isinstance(args[0], VExt) and args[0].sort == "BytesIO":
+        common.havoc_pos(ex, st, args[0])
+    return [(st, VBool(z3.Bool(fresh_name("is_zipfile"))))]
+
+
 def install_models(reg):
     for name in ACCESS:
         reg.method_models[("ZipFile", name)] = member_access(name)
+    reg.ext_models["zipfile.is_zipfile"] = m_is_zipfile
 
 
 # ------------------------------------------------------------------------------------------------- the context class --
 def handle_attrs(cls_node):
-    """Attributes of `self` that the real __init__ binds to a call result whose value is used with a member-access method
-    somewhere in the class (role: the container handle)."""
+    """Attributes of `self` that the real __init__ stores and that some method of the class uses as the receiver of a container
+    method or hands to a reader (role: the container handle)."""
     init = next((n for n in cls_node.body if isinstance(n, ast.FunctionDef) and n.name == "__init__"), None)
     if init is None or not init.args.args:
         return []
     me = init.args.args[0].arg
     stored = []
     for n in ast.walk(init):
-        if isinstance(n, ast.Assign) and isinstance(n.value, ast.Call):
-            for t in n.targets:
+        if isinstance(n, (ast.Assign, ast.AnnAssign)) and n.value is not None:
+            for t in (n.targets if isinstance(n, ast.Assign) else [n.target]):
                 if isinstance(t, ast.Attribute) and isinstance(t.value, ast.Name) and t.value.id == me:
                     stored.append(t.attr)
     used = set()
@@ -136,6 +150,9 @@ def handle_attrs(cls_node):
                 continue
             if isinstance(n.func, ast.Attribute) and is_attr(n.func.value) and n.func.attr in ACCESS + ("close", "infolist"):
                 used.add(n.func.value.attr)           # receiver of a container method
+            callee = ast.unparse(n.func).split(".")[-1]
+            if f.name == "__init__" or callee in ("open_zipfile", "validate_zip_bytesio", "validate_zipfile", "ZipFile", "BytesIO"):
+                continue                              # the stream handed to the guard / a constructor is not the handle
             for a in list(n.args) + [k.value for k in n.keywords]:
                 if is_attr(a) and not (isinstance(n.func, ast.Name) and n.func.id in ("set", "list", "len", "sorted", "tuple", "frozenset")):
                     used.add(a.attr)                  # handed to a reader
@@ -149,13 +166,30 @@ def handle_of(st, selfv):
 
 
 def methods_touching(cls_node, attrs):
+    """The undecorated methods of the class that touch a handle attribute OR call anything that could open / read a container
+    (any call that is not a plain read of `self.<attr>`): a method that leaves the handle alone and re-opens the stream is under
+    the invariant contract too."""
     out = []
     for f in cls_node.body:
         if not isinstance(f, ast.FunctionDef) or f.name == "__init__" or not f.args.args or f.decorator_list:
             continue
         s = f.args.args[0].arg
-        if any(isinstance(n, ast.Attribute) and isinstance(n.value, ast.Name) and n.value.id == s and n.attr in attrs for n in ast.walk(f)):
+        if any(isinstance(n, ast.Attribute) and isinstance(n.value, ast.Name) and n.value.id == s and n.attr in attrs for n in ast.walk(f)) \
+                or any(isinstance(n, ast.Call) for n in ast.walk(f)):
             out.append(f)
+    return out
+
+
+def other_attrs(cls_node, attrs):
+    """every other attribute the real __init__ stores (unknown content under the invariant)"""
+    init = next((n for n in cls_node.body if isinstance(n, ast.FunctionDef) and n.name == "__init__"), None)
+    out = []
+    if init is not None and init.args.args:
+        me = init.args.args[0].arg
+        for n in ast.walk(init):
+            if isinstance(n, ast.Attribute) and isinstance(n.ctx, ast.Store) and isinstance(n.value, ast.Name) and n.value.id == me \
+                    and n.attr not in attrs and n.attr not in out:
+                out.append(n.attr)
     return out
 
 
@@ -251,6 +285,8 @@ def _context_contracts(cls):
             return z3.And(conj) if conj else z3.BoolVal(True)
 
         fields = {a: p_accepted_zip() for a in attrs}
+        for a in other_attrs(cls, attrs):
+            fields[a] = Maker(lambda ex, st, name: VUnk(name), desc="any")
         out.append(FnContract(
             target=f"{ZC}::ZipContext.{f.name}",
             params=[("self", p_obj("ZipContext", fields))] + [(p, p_str()) for p in others],
